@@ -34,13 +34,13 @@ EXECS=$(grep -h "stat::number_of_executed_units" "$ART"/worker*.log | awk '{s+=$
 CORPUS_OUT=$(ls "$WORK" | wc -l)
 EMPTY_OUT=$(ls "$EMPTY" | wc -l)
 COV=$(grep -h "cov:" "$ART"/worker*.log | sed 's/.*cov: \([0-9]*\).*/\1/' | sort -n | tail -1)
-RC=0; NCRASH=0; REPRO=0
+RC=0; NCRASH=0; REPRO=0; NOREPRO=0
 for A in "$ART"/w*-crash-* "$ART"/w*-oom-* "$ART"/w*-timeout-*; do
     [ -f "$A" ] || continue
     NCRASH=$((NCRASH + 1))
     case "$A" in
       *-crash-*)
-        if ! VERIF_ROOT="$ROOT" "$PLAIN" fuzz-artifact "$ID" "$T" "$A"; then REPRO=$((REPRO + 1)); RC=1; fi ;;
+        if ! VERIF_ROOT="$ROOT" "$PLAIN" fuzz-artifact "$ID" "$T" "$A"; then REPRO=$((REPRO + 1)); RC=1; else NOREPRO=$((NOREPRO + 1)); fi ;;
       *) echo "fuzz: $A is a timeout/oom artifact: reported as inconclusive, not as a violation" ;;
     esac
 done
@@ -48,7 +48,7 @@ END=$(date +%s)
 cat > "$OUT" <<JSON
 {"target": "$T", "engine": "libFuzzer (cargo-fuzz, sanitizer none, oracle inside the target)", "workers": 16, "runs_per_worker": $RUNS,
  "evaluations": $EXECS, "distinct_nontrivial": $((CORPUS_OUT + EMPTY_OUT)), "corpus_in": $CORPUS_IN, "corpus_out": $CORPUS_OUT, "empty_corpus_worker_out": $EMPTY_OUT,
- "max_coverage_edges": ${COV:-0}, "artifacts": $NCRASH, "reproduced_violations": $REPRO, "seed_base": $SEED, "max_len": $MAXLEN, "wall_s": $((END - START)),
+ "max_coverage_edges": ${COV:-0}, "artifacts": $NCRASH, "reproduced_violations": $REPRO, "non_reproducing_artifacts": $NOREPRO, "planned_executions": $((RUNS * 16)), "seed_base": $SEED, "max_len": $MAXLEN, "wall_s": $((END - START)),
  "note": "distinct_nontrivial here = inputs libFuzzer kept because they reached new coverage (final corpus sizes)"}
 JSON
 exit $RC
